@@ -201,6 +201,63 @@ impl<T> Iterator for Src<T> {
 
 // ------------------------------------------------------------------ map operations
 
+/// take items from a drain / consuming iterator, observe it, then end it.
+/// Output: `[[items],len,(debug,)size_hint(,count)]`.
+fn consume<I, S, D>(cx: &mut Cx, mut it: I, take: Take, end: End, show: S, dbg: Option<D>) -> String
+where
+    I: Iterator + ExactSizeIterator,
+    S: Fn(&I::Item) -> String,
+    D: Fn(&mut Cx, &I) -> String,
+{
+    let mut items = Vec::new();
+    match take {
+        Take::Next(n) => {
+            for _ in 0..n {
+                match Held::new(mm(|| it.next())).as_ref() {
+                    None => break,
+                    Some(x) => items.push(show(x)),
+                }
+            }
+        }
+        Take::Nth(k) => {
+            if let Some(x) = Held::new(mm(|| it.nth(k))).as_ref() {
+                items.push(show(x));
+            }
+        }
+        Take::Last => {
+            if let Some(x) = Held::new(mm(|| it.last())).as_ref() {
+                items.push(show(x));
+            }
+            return format!("[[{}],consumed]", items.join(","));
+        }
+    }
+    let remaining = mm(|| it.len());
+    let h = hint(mm(|| it.size_hint()));
+    let d = match &dbg {
+        Some(f) => format!("{},", f(cx, &it)),
+        None => String::new(),
+    };
+    match end {
+        End::Forget => {
+            std::mem::forget(it);
+            format!("[[{}],{},{}{}]", items.join(","), remaining, d, h)
+        }
+        End::Drop => {
+            mm(|| drop(it));
+            format!("[[{}],{},{}{}]", items.join(","), remaining, d, h)
+        }
+        End::Count => {
+            let c = mm(|| it.count());
+            format!("[[{}],{},{}{},{}]", items.join(","), remaining, d, h, c)
+        }
+    }
+}
+
+fn dbg_of<T: std::fmt::Debug>(cx: &mut Cx, x: &T) -> String {
+    mm(|| write!(cx.buf, "{:?}", x)).unwrap();
+    esc(&cx.buf.take())
+}
+
 fn run_script<I, F>(cx: &mut Cx, it: I, script: &[Cmd], can_clone: Option<fn(&I) -> I>, mut show: F) -> String
 where
     I: Iterator + ExactSizeIterator + std::fmt::Debug,
@@ -358,57 +415,20 @@ pub fn map_op<const N: usize>(cx: &mut Cx, m: &mut MapN<N>, op: &MapOp) -> Strin
         MapOp::Len => format!("{}", mm(|| m.len())),
         MapOp::IsEmpty => format!("{}", mm(|| m.is_empty()) as u8),
         MapOp::Capacity => format!("{}", mm(|| m.capacity())),
-        MapOp::Drain(take, forget) => {
-            let mut d = mm(|| m.drain());
-            let mut items = Vec::new();
-            for _ in 0..*take {
-                match Held::new(mm(|| d.next())).as_ref() {
-                    None => break,
-                    Some((k, v)) => items.push(show_pair(k, v)),
-                }
-            }
-            let remaining = mm(|| d.len());
-            mm(|| write!(cx.buf, "{:?}", d)).unwrap();
-            let dbg = esc(&cx.buf.take());
-            if *forget {
-                std::mem::forget(d);
-            } else {
-                mm(|| drop(d));
-            }
-            format!("[[{}],{},{}]", items.join(","), remaining, dbg)
+        MapOp::Drain(take, end) => {
+            let d = mm(|| m.drain());
+            consume(cx, d, *take, *end, |x: &(Key, Val)| show_pair(&x.0, &x.1), Some(|cx: &mut Cx, i: &_| dbg_of(cx, i)))
         }
-        MapOp::IntoIter(kind, take, forget) => {
+        MapOp::IntoIter(kind, take, end) => {
             let owned = std::mem::replace(m, Map::new());
-            let mut items = Vec::new();
-            let remaining;
-            let dbg;
-            macro_rules! consume {
-                ($it:expr, $show:expr) => {{
-                    let mut it = $it;
-                    for _ in 0..*take {
-                        match Held::new(mm(|| it.next())).as_ref() {
-                            None => break,
-                            Some(x) => items.push($show(x)),
-                        }
-                    }
-                    remaining = mm(|| it.len());
-                    mm(|| write!(cx.buf, "{:?}", it)).unwrap();
-                    dbg = esc(&cx.buf.take());
-                    if *forget {
-                        std::mem::forget(it);
-                    } else {
-                        mm(|| drop(it));
-                    }
-                }};
-            }
             match kind {
-                IntoKind::Pairs => {
-                    consume!(mm(|| owned.into_iter()), |x: &(Key, Val)| show_pair(&x.0, &x.1))
-                }
-                IntoKind::Keys => consume!(mm(|| owned.into_keys()), |x: &Key| x.show()),
-                IntoKind::Values => consume!(mm(|| owned.into_values()), |x: &Val| x.show()),
+                IntoKind::Pairs => consume(cx, mm(|| owned.into_iter()), *take, *end,
+                                           |x: &(Key, Val)| show_pair(&x.0, &x.1), Some(|cx: &mut Cx, i: &_| dbg_of(cx, i))),
+                IntoKind::Keys => consume(cx, mm(|| owned.into_keys()), *take, *end, |x: &Key| x.show(),
+                                          Some(|cx: &mut Cx, i: &_| dbg_of(cx, i))),
+                IntoKind::Values => consume(cx, mm(|| owned.into_values()), *take, *end, |x: &Val| x.show(),
+                                            Some(|cx: &mut Cx, i: &_| dbg_of(cx, i))),
             }
-            format!("[[{}],{},{}]", items.join(","), remaining, dbg)
         }
         MapOp::Iter(kind, add, script) => match kind {
             IterKind::Iter => {
@@ -722,40 +742,13 @@ pub fn set_op<const N: usize>(cx: &mut Cx, s: &mut SetN<N>, op: &SetOp) -> Strin
         SetOp::Len => format!("{}", mm(|| s.len())),
         SetOp::IsEmpty => format!("{}", mm(|| s.is_empty()) as u8),
         SetOp::Capacity => format!("{}", mm(|| s.capacity())),
-        SetOp::Drain(take, forget) => {
-            let mut d = mm(|| s.drain());
-            let mut items = Vec::new();
-            for _ in 0..*take {
-                match Held::new(mm(|| d.next())).as_ref() {
-                    None => break,
-                    Some(k) => items.push(k.show()),
-                }
-            }
-            let remaining = mm(|| d.len());
-            if *forget {
-                std::mem::forget(d);
-            } else {
-                mm(|| drop(d));
-            }
-            format!("[[{}],{}]", items.join(","), remaining)
+        SetOp::Drain(take, end) => {
+            let d = mm(|| s.drain());
+            consume(cx, d, *take, *end, |k: &Key| k.show(), None::<fn(&mut Cx, &_) -> String>)
         }
-        SetOp::IntoIter(take, forget) => {
+        SetOp::IntoIter(take, end) => {
             let owned = std::mem::replace(s, Set::new());
-            let mut it = mm(|| owned.into_iter());
-            let mut items = Vec::new();
-            for _ in 0..*take {
-                match Held::new(mm(|| it.next())).as_ref() {
-                    None => break,
-                    Some(k) => items.push(k.show()),
-                }
-            }
-            let remaining = mm(|| it.len());
-            if *forget {
-                std::mem::forget(it);
-            } else {
-                mm(|| drop(it));
-            }
-            format!("[[{}],{}]", items.join(","), remaining)
+            consume(cx, mm(|| owned.into_iter()), *take, *end, |k: &Key| k.show(), None::<fn(&mut Cx, &_) -> String>)
         }
         SetOp::Iter(script) => {
             let it = mm(|| s.iter());
